@@ -377,6 +377,20 @@ def invalid_driver(m):
             m.violation("invalid-parameters-refused", f"{t}(**{p}) accepted: {why}", key="accepted:" + why)
         except Exception:
             pass
+    # the same refusals where the offending knot is the number 0 (a falsy value) or a boundary is 0
+    shifted = [(x + 1.0, dict(knots=[0.0, 1.5]), "knot 0 below the data"), (x - 2.0, dict(knots=[-1.5, 0.0]), "knot 0 above the data"),
+               (x - 0.5, dict(knots=[0.0], lower_bound=0.2, upper_bound=1.0), "knot 0 below the lower bound"),
+               (x - 0.5, dict(knots=[0.0], lower_bound=-1.0, upper_bound=-0.1), "knot 0 above the upper bound"),
+               (x - 0.5, dict(knots=[0.3], lower_bound=-1.0, upper_bound=0.0), "knot above the upper bound 0"),
+               (x - 0.5, dict(knots=[-0.3], lower_bound=0.0, upper_bound=1.0), "knot below the lower bound 0")]
+    for xs, p, why in shifted:
+        m.ev("invalid-parameters-refused")
+        m.case({"invalid": ["bs", {k: repr(v) for k, v in p.items()}, why]}, canon=["bs", why])
+        try:
+            TRANSFORMS["bs"]()(xs, **p)
+            m.violation("invalid-parameters-refused", f"bs(**{p}) accepted: {why}", key="accepted:" + why)
+        except Exception:
+            pass
 
 
 def gen_params(rng, t):
